@@ -101,7 +101,7 @@ def build_xs_bin():
     os.makedirs(CACHE, exist_ok=True)
     with open(os.path.join(CACHE, "build-xs.lock"), "w") as lk:
         fcntl.flock(lk, fcntl.LOCK_EX)
-        p = sh("cargo build --offline --manifest-path /repo/Cargo.toml --bin xs --target-dir "
+        p = sh(f"cargo build --offline --manifest-path {REPO}/Cargo.toml --bin xs --target-dir "
                + os.path.join(HARNESS, "target-xs") + " 2>&1", cwd=VERIF, timeout=3000, check=False,
                env={"CARGO_PROFILE_DEV_DEBUG": "0", "CARGO_NET_OFFLINE": "true"})
         if p.returncode != 0 or not os.path.exists(XS_BIN):
